@@ -36,9 +36,7 @@ package ethereum
 // The hash the members sign is computed over the chain id, the same list of
 // misbehaved members (all of them, sorted ascending as the contract hashes
 // them) and the DKG start block.
-// (elliptic.Marshal returns the uncompressed form 0x04 || X || Y: at least one byte.)
-//@ assume func crypto/elliptic.Marshal
-//@   ensures len(result) >= 1
+// (elliptic.Marshal: assumed contract in the prelude - the uncompressed form 0x04 || X || Y, at least one byte.)
 //@ func TbtcChain.CalculateDKGResultSignatureHash
 //@   property C40
 //@   opt noframe 1
